@@ -19,7 +19,8 @@ LEVEL_TEXT = ("For thousands of random DAGs (p<=8, signed and cancelling weight 
               "recorded draws; the arrays actually handed to the assignments are compared with the parents' final columns.")
 LEVEL_NOTE = "Trusted: the checker's callables. User callables with side effects are not modelled. n in {0,1,2,5,1000}."
 RULE = ("cases: (adjacency, assignment kinds, intervention target sets, n).  distinct = distinct canonical case; non-trivial = "
-        "at least one non-source variable and n >= 1")
+        "at least one non-source variable and n >= 1"
+        ' Also: models with up to 14 variables (labels >= 8), adjacency matrices mixing 18 orders of magnitude or holding minute non-zero weights, numpy-int n and keys, noise distributions that replay a stored table (same array object each call, two consecutive samples).')
 ASSUMPTIONS = ["targets that are simultaneously shift- and noise-intervened are excluded (the property's quantifier does)"]
 EXHAUSTIVE = {"quick": False, "thorough": False}
 SOFT_LIMIT = {"quick": 240, "thorough": 1500}
